@@ -62,6 +62,7 @@ fn later_use(mode: u8, data: &[u8], ctx: Ctx, j: usize, k: usize) -> Option<Stri
     let mut w = Vec::new();
     if catch(|| cap.write_encoded(mode_of(mode), &mut w).unwrap()).is_none() { return Some("reencode-panics".into()) }
     if w != bytes || cap.encoded_len(mode_of(mode)) != bytes.len() { return Some("reencode-differs".into()) }
+    if let Some(what) = awkward_targets(&bytes, 1 + bytes.len() % 4, &|t| { let mut t = t; cap.write_encoded(mode_of(mode), &mut t) }) { return Some(format!("reencode: {}", what)) }
     None
 }
 
